@@ -142,6 +142,27 @@ func (e *Enc) prelude() string {
 	return sb.String()
 }
 
+// goalInPC: every conjunct of the goal literally occurs as a (conjunct of a) path-condition
+// assertion. Sound: A ∧ ... ==> A.
+func goalInPC(ob *Obligation) bool {
+	have := map[string]bool{}
+	for _, p := range ob.PC {
+		if len(p.S) > 20000 {
+			have[p.S] = true
+			continue
+		}
+		for _, c := range splitAnd(p) {
+			have[c.S] = true
+		}
+	}
+	for _, g := range splitAnd(ob.Goal) {
+		if !have[g.S] {
+			return false
+		}
+	}
+	return true
+}
+
 // splitAnd returns the top-level conjuncts of an SMT term (recursively through nested "and").
 func splitAnd(t Term) []Term {
 	s := t.S
@@ -326,6 +347,10 @@ func discharge(results []*FuncResult, opts SolveOpts) {
 				ob.Result = &SolveResult{Status: "unsat", Solver: "trivial"}
 				continue
 			}
+			if !ob.Cover && goalInPC(ob) {
+				ob.Result = &SolveResult{Status: "unsat", Solver: "syntactic"}
+				continue
+			}
 			n++
 			jobs = append(jobs, job{ob: ob, prelude: prelude, query: buildQuery(fr.Enc, prelude, ob), base: fmt.Sprintf("q%04d_%s", n, sanitize(shortName(fr.Fn)+"_"+ob.Name))})
 		}
@@ -348,7 +373,11 @@ func discharge(results []*FuncResult, opts SolveOpts) {
 // discharge the conjuncts one by one (valid iff every conjunct is valid).
 func solveOb(ob *Obligation, prelude, query, base string, opts SolveOpts) *SolveResult {
 	if ob.Cover {
-		return solveOne(query, base, true, opts)
+		// vacuity canary: only an "unsat" answer matters (contradictory assumptions); a solver
+		// that finds no contradiction within a few seconds is good enough
+		r := runSolver(solvers[opts.Portfolio[0]], query, opts.Dir, base, 3, false)
+		r.Tried = []string{fmt.Sprintf("%s:%s:%.2fs", opts.Portfolio[0], r.Status, r.Seconds)}
+		return r
 	}
 	parts := splitAnd(ob.Goal)
 	if len(parts) <= 1 {
@@ -370,6 +399,9 @@ func solveOb(ob *Obligation, prelude, query, base string, opts SolveOpts) *Solve
 		if pr.Status != "unsat" {
 			pr.Tried = append(tried, pr.Tried...)
 			pr.Part = fmt.Sprintf("conjunct %d/%d: %s", i+1, len(parts), truncate(p.S, 400))
+			if len(ob.Parts) == len(parts) {
+				pr.Part = ob.Parts[i] + ": " + pr.Part
+			}
 			return pr
 		}
 		tried = append(tried, fmt.Sprintf("c%d:%s", i, pr.Solver))
